@@ -33,7 +33,27 @@ def wide_case(draw):
     """Many distinct strings of ONE kind, revisited, with that kind's table large enough for all of them and the other
     tables as small as the statements allow: nothing may be sent twice, whatever the other tables' sizes are."""
     c = draw(scen.generic_write_case(max_len=1))
-    kind = draw(st.sampled_from(["prefix", "prefix", "name", "datatype"]))
+    kind = draw(st.sampled_from(["prefix", "prefix", "name", "datatype", "one_slot"]))
+    if kind == "one_slot":
+        # tables with a single slot that every statement overwrites: one IRI / one datatype per statement, changing
+        # namespace / datatype from statement to statement (the id stays 1: every zero form remains available)
+        m = draw(st.integers(3, 12))
+        which = draw(st.sampled_from(["prefix", "datatype", "both"]))
+        stmts = []
+        for i in range(m):
+            ns = "http://n%d.example/" % draw(st.integers(0, 2)) if which != "datatype" else "http://n.example/"
+            dt = "http://dt.example/t%d" % draw(st.integers(0, 2)) if which != "prefix" else None
+            st_ = [["iri", ns + "x%d" % (i % 3)], ["bnode", "p"], ["lit", "v%d" % i, None, dt]]
+            if c["phys"] != "TRIPLES":
+                st_.append(["default"] if c["phys"] == "QUADS" else ["bnode", "g"])
+            stmts.append(st_)
+        if c["entry"] in ("sink_serialize", "flat_to_file_default", "grouped_to_file_default"):
+            c["entry"] = "stream_frames_gen"
+            c["frame_size"] = draw(gen.frame_sizes)
+        c["statements"] = stmts
+        c["preset"] = [8, 1, 1 if which != "prefix" else draw(st.sampled_from([0, 1]))]
+        c["wide"] = "one_slot_" + which
+        return c
     n = draw(st.integers(9, 40))
     first = list(range(n))
     again = draw(st.lists(st.integers(0, n - 1), min_size=3, max_size=20))
